@@ -40,6 +40,8 @@ MIN_REACH = {
     "style_pairs_compared": {"quick": 1200, "thorough": 15000},
     "aggregates_compared": {"quick": 100, "thorough": 1500},
     "aggregate_figures_with_x_as_a_data_variable": {"quick": 15, "thorough": 250},
+    "heat_maps_drawn_under_a_non_default_mesh_shading_setting": {"quick": 8, "thorough": 120},
+    "line_figures_drawn_under_a_style_cycling_line_styles": {"quick": 50, "thorough": 700},
     "histograms_compared": {"quick": 120, "thorough": 1200},
     "heatmap_cells_compared": {"quick": 300, "thorough": 5000},
     "slices_holding_infinite_values": {"quick": 30, "thorough": 500},
@@ -271,8 +273,20 @@ def run_case(ctx, case):
         _, given_axs = plt.subplots(ds.sizes[rd_] if rd_ else 1, (ds.sizes[cd_] if cd_ else 1) + 1, squeeze=False)
         kw["axs"] = given_axs
         ctx.count("figures_drawn_on_axes_given_by_the_caller")
+    import contextlib
+    import matplotlib
+    ambient = contextlib.nullcontext()
+    if mode == "heatmap" and case["dseed"] % 4 == 2:
+        # the calling program has set matplotlib's default mesh shading for its own pcolormesh calls
+        ambient = matplotlib.rc_context({"pcolor.shading": ["gouraud", "flat", "nearest"][case["dseed"] % 3]})
+        ctx.count("heat_maps_drawn_under_a_non_default_mesh_shading_setting")
+    elif mode in ("lines", "aggregate") and case["dseed"] % 5 == 3:
+        # ... or a property cycle that also cycles line styles and widths (a black-and-white style sheet)
+        from cycler import cycler
+        ambient = matplotlib.rc_context({"axes.prop_cycle": cycler(color=["k", "0.4", "0.7"]) + cycler(linestyle=["-", "--", ":"]) + cycler(linewidth=[1.0, 2.0, 3.0])})
+        ctx.count("line_figures_drawn_under_a_style_cycling_line_styles")
     try:
-        with quiet():
+        with quiet(), ambient:
             if mode == "lines":
                 if case["join"]:
                     kw["join_across_missing"] = True
